@@ -581,6 +581,12 @@ class EnforcedForest:
             ) and (edge.get("geometry") == kwargs.get("geometry")):
                 return False
 
+        # a node has exactly one parent: if `v` is being moved
+        # under a new parent drop the edge from the old one
+        parent_old = self.parents.get(v)
+        if parent_old is not None and parent_old != u:
+            self.edge_data.pop((parent_old, v), None)
+
         # store a parent reference for traversal
         self.parents[v] = u
         # store kwargs for edge data keyed with tuple
